@@ -198,7 +198,16 @@ def snp_proj(name):
 
 UNITS = ["L1Norm", "L0Norm", "SquaredL2Norm", "L2Norm", "L21Norm", "HuberNorm", "NonNegativeIndicator",
          "L2BallIndicator", "ZeroFunctional", "SetDistance", "SquaredSetDistance", "Loss",
-         "SquaredL2Loss", "SquaredL2AbsLoss", "SquaredL2SquaredAbsLoss", "NuclearNorm", "L1MinusL2Norm"]
+         "SquaredL2Loss", "SquaredL2AbsLoss", "SquaredL2SquaredAbsLoss", "NuclearNorm", "L1MinusL2Norm",
+         "LossNonEven"]
+
+# the generic loss.Loss(y, f, scale) over a functional f that is NOT even (f(-u) != f(u)): the code's
+# f.prox(v - y, scale*lam) + y and the reflected y - f.prox(y - v, scale*lam) differ only there
+VUNIT = {"LossNonEven": "Loss"}
+
+
+def vunit(c):
+    return VUNIT.get(c["unit"], c["unit"]) + ".prox"
 
 
 def gen_case(rng, unit):
@@ -326,6 +335,25 @@ def gen_case(rng, unit):
         if rng.random() < 0.3:
             y = np.array(v)           # v - y = 0
         c["y"] = enc(y)
+    elif unit == "LossNonEven":
+        block = False
+        c["f"] = rng.choice(["NonNegativeIndicator", "SetDistance", "SquaredSetDistance", "SetDistance", "Loss"])
+        c["scale"] = rng.choice([0.25, 0.5, 2.0, 3.0])
+        cplx = False
+        if c["f"] in ("SetDistance", "SquaredSetDistance"):
+            c["proj"] = rng.choice(["nonneg", "box", "box", "point"])
+            c["args"] = {"nonneg": [], "box": rng.choice([[0.5, 2.0], [-1.0, 0.25], [1.0, 1.5]]),
+                         "point": [rng.choice([-1.5, 0.75, 2.0])]}[c["proj"]]
+            cplx = c["proj"] == "point" and rng.random() < 0.5
+        if c["f"] == "Loss":
+            c["y2"] = enc(rand_array(rng, shape, False))
+            c["scale2"] = rng.choice([0.5, 2.0])
+        y = rand_array(rng, shape, cplx)
+        # v has entries on both sides of y (and some equal to y, some at distance scale*lam)
+        t = c["scale"] * lam
+        d = rand_array(rng, shape, cplx, mag_special([t, 2 * t, t / 2], cplx))
+        v = y + d
+        c["y"] = enc(y)
     elif unit == "SquaredL2Loss":
         block = False
         c["scale"] = rng.choice([0.25, 0.5, 1.0, 2.0])
@@ -379,6 +407,15 @@ def build(c):
     elif u == "Loss":
         inner = F.HuberNorm(delta=0.5, separable=True) if c["f"] == "HuberNorm" else getattr(F, c["f"])()
         f = loss.Loss(y=to_snp(dec(c["y"])), f=inner, scale=c["scale"])
+    elif u == "LossNonEven":
+        y = to_snp(dec(c["y"]))
+        if c["f"] == "NonNegativeIndicator":
+            inner = F.NonNegativeIndicator()
+        elif c["f"] == "Loss":
+            inner = loss.Loss(y=to_snp(dec(c["y2"])), f=F.NonNegativeIndicator(), scale=c["scale2"])
+        else:
+            inner = getattr(F, c["f"])(snp_proj(c["proj"]), tuple(c["args"]))
+        f = loss.Loss(y=y, f=inner, scale=c["scale"])
     elif u == "SquaredL2Loss":
         y = to_snp(dec(c["y"]))
         A = None if c["A"] == "none" else (linop.Identity(y.shape, input_dtype=y.dtype) if c["A"] == "identity"
@@ -446,6 +483,19 @@ def objective_parts(c):
              "L2Norm": lambda z: float(np.linalg.norm(z)), "HuberNorm": lambda z: huber_np(z, 0.5, True),
              "L0Norm": lambda z: float(np.count_nonzero(z))}[c["f"]]
         return (lambda x: c["scale"] * g(flat(np.asarray(x) - y))), c["f"] != "L0Norm"
+    if u == "LossNonEven":
+        y = dec(c["y"])
+        inf_ = float("inf")
+        if c["f"] == "NonNegativeIndicator":
+            g = lambda z: 0.0 if np.all(flat(z) >= 0) else inf_
+        elif c["f"] == "Loss":
+            y2 = dec(c["y2"])
+            g = lambda z: 0.0 if np.all(flat(z - y2) >= 0) else inf_
+        else:
+            P = PROJ[c["proj"]]
+            dd = lambda z: float(np.linalg.norm(flat(z - P(z, *c["args"]))))
+            g = dd if c["f"] == "SetDistance" else (lambda z: 0.5 * dd(z) ** 2)
+        return (lambda x: c["scale"] * g(np.asarray(x) - y)), True
     if u == "SquaredL2Loss":
         y = dec(c["y"])
         a = dec(c["a"]) if "a" in c else np.ones(y.shape)
@@ -660,6 +710,32 @@ def coq_cases(c, out):
                     rows.append(([a, b], [o]))
             return [("model", grouped(14 if c["f"] == "L1Norm" else 15, [c["scale"], lam], [(0.0, rows)]))]
         return []
+    if u == "LossNonEven":
+        y = dec(c["y"])
+        fy = flat(y)
+        ps = [c["scale"], lam]
+        if c["f"] == "NonNegativeIndicator":
+            rows = [([float(fv[k]), float(fy[k])], [float(np.real(fo[k]))]) for k in range(fv.size)]
+            return [("model", grouped(23, ps, [(0.0, rows)]))]
+        if c["f"] == "Loss":
+            y2 = flat(dec(c["y2"]))
+            rows = [([float(fv[k]), float(fy[k]), float(y2[k])], [float(np.real(fo[k]))]) for k in range(fv.size)]
+            return [("model", grouped(26, ps + [c["scale2"]], [(0.0, rows)]))]
+        z = np.asarray(v) - y
+        pz = flat(np.asarray(PROJ[c["proj"]](z, *c["args"])))
+        d = float(np.linalg.norm(flat(z) - pz))
+        rows = []
+        for k in range(fv.size):
+            cv, cy = comps(fv[k]), (comps(fy[k]) if cp else [float(np.real(fy[k]))])
+            cz = comps(pz[k]) if cp else [float(np.real(pz[k]))]
+            co = comps(fo[k]) if cp else [float(np.real(fo[k]))]
+            if cp and len(cy) == 1:
+                cy = [cy[0], 0.0]
+            if cp and len(cz) == 1:
+                cz = [cz[0], 0.0]
+            for a, b, e_, o in zip(cv, cy, cz, co):
+                rows.append(([a, b, e_], [o]))
+        return [("model", grouped(24 if c["f"] == "SetDistance" else 25, ps, [(d, rows)]))]
     if u == "SquaredL2Loss":
         y = flat(dec(c["y"]))
         a = flat(dec(c["a"])) if "a" in c else np.ones(fv.size)
@@ -723,7 +799,7 @@ def check_case(ctx, c, rng, coq_items):
     try:
         out = run_impl(c)
     except Exception as e:  # an advertised prox that raises
-        ctx.violation(unit + ".prox", f"prox raises {type(e).__name__}", annotate(c), observed=str(e)[:300],
+        ctx.violation(vunit(c), f"prox raises {type(e).__name__}", annotate(c), observed=str(e)[:300],
                       oracle="has_prox = True and documented argument range")
         return
     _, convex = objective_parts(c)
@@ -741,7 +817,7 @@ def check_case(ctx, c, rng, coq_items):
         inp = annotate(c)
         if "v2" in res[1]:
             inp["norm_v2"] = float(np.linalg.norm(flat(dec(res[1]["v2"]))))
-        ctx.violation(unit + ".prox", res[0], inp, expected="minimiser of lam*f(x)+0.5||x-v||^2",
+        ctx.violation(vunit(c), res[0], inp, expected="minimiser of lam*f(x)+0.5||x-v||^2",
                       observed=res[1], oracle="objective comparison / subgradient certificate / firm non-expansiveness")
     if np.all(np.isfinite(flat(out))):
         for tag, txt in coq_cases(c, out):
@@ -796,7 +872,7 @@ def run(ctx: Ctx):
             # differs from the proved minimiser: a violation only if the oracle found a better point
             # (ties between two minimisers are legitimate for the non-convex l0 penalty)
             continue
-        ctx.violation(unit + ".prox", "prox output differs from the Coq model of the prox body (proved minimiser)",
+        ctx.violation(vunit(c), "prox output differs from the Coq model of the prox body (proved minimiser)",
                       annotate(c), expected="C02.Models at Qc (vm_compute)", observed=enc(run_impl(c)),
                       oracle="correspondence with coq/theories/C02/Models.v")
     nspec = sum(1 for c, tag, _, _ in bad if tag == "spec")
